@@ -194,6 +194,9 @@ public:
         swap(first.m_debugOutputPath, second.m_debugOutputPath);
         swap(first.m_projectionDebugLevel, second.m_projectionDebugLevel);
         swap(first.m_sepMatrix, second.m_sepMatrix);
+        // Each SepMatrix must point back to the Graph that now owns it.
+        first.m_sepMatrix.setGraph(&first);
+        second.m_sepMatrix.setGraph(&second);
         swap(first.m_iel, second.m_iel);
         swap(first.m_cgr, second.m_cgr);
         swap(first.m_needNewRectangles, second.m_needNewRectangles);
